@@ -12,7 +12,7 @@ from .lib import (Out, Proxy, ProtoError, TcpOrigin, addr_v5, base_cfg, client_s
 B_CLOSE = 3.0
 USER, PASS = "alice", "s3cret"
 
-BEHAVIOURS = ["ok", "delay", "refuse", "refuseverbose", "refuseintl0", "refuseintl1", "refuseintl2", "refuseintl3", "garbage", "closebefore", "closeafter", "resetafter", "partial"]
+BEHAVIOURS = ["ok", "delay", "refuse", "refuseverbose", "refuseintl0", "refuseintl1", "refuseintl2", "refuseintl3", "refuseinterim100", "refuseinterim103", "closeinterim102", "garbage", "closebefore", "closeafter", "resetafter", "partial"]
 
 
 class FakeUpstreams:
@@ -65,6 +65,17 @@ class FakeUpstreams:
             pad = "x" * int(beh[-1])
             realm = "Для доступа к этому ресурсу требуется авторизация на прокси-сервере организации. 需要代理身份验证。 " * 6
             fail_bytes = ("HTTP/1.1 407 %sТребуется аутентификация прокси\r\nProxy-Authenticate: Basic realm=\"%s\"\r\nContent-Length: 0\r\n\r\n" % (pad, realm)).encode("utf-8")
+        if "interim" in beh and proto == "http":
+            # an interim (1xx) response first, then the final refusal (or nothing at all): an interim response is no grant
+            code = beh[-3:]
+            w.write(("HTTP/1.1 %s %s\r\n\r\n" % (code, {"100": "Continue", "102": "Processing", "103": "Early Hints"}[code])).encode())
+            await w.drain()
+            await asyncio.sleep(0.05)
+            if beh.startswith("close"):
+                self.log(proto, host, "refused")
+                return
+        if beh.startswith("close") and "interim" in beh:
+            return
         if beh.startswith("refuse"):
             w.write(fail_bytes)
             await w.drain()
